@@ -51,11 +51,46 @@ def _is_const_real(t):
     return z3.is_rational_value(t) or z3.is_int_value(t)
 
 
+def int_valued(t):
+    """the integer term behind a real term that is structurally integer valued (ToReal(i), sums, differences,
+    products of such, integer numerals), else None"""
+    t = z3.simplify(t)
+    if z3.is_rational_value(t):
+        if t.denominator_as_long() == 1:
+            return z3.IntVal(t.numerator_as_long())
+        return None
+    if z3.is_app(t):
+        k = t.decl().kind()
+        if k == z3.Z3_OP_TO_REAL:
+            return t.arg(0)
+        if k in (z3.Z3_OP_ADD, z3.Z3_OP_SUB, z3.Z3_OP_MUL, z3.Z3_OP_UMINUS):
+            parts = [int_valued(c) for c in t.children()]
+            if any(p is None for p in parts):
+                return None
+            if k == z3.Z3_OP_ADD:
+                return z3.Sum(parts) if len(parts) > 1 else parts[0]
+            if k == z3.Z3_OP_SUB:
+                r = parts[0]
+                for p in parts[1:]:
+                    r = r - p
+                return r
+            if k == z3.Z3_OP_UMINUS:
+                return -parts[0]
+            r = parts[0]
+            for p in parts[1:]:
+                r = r * p
+            return r
+    return None
+
+
 def real_mul(x, y):
     """linear products stay arithmetic; a product of two non-constant reals is the abstract rmul (S3: the proofs use
     congruence only, never the field axioms, so nothing about rounding or algebra is assumed)"""
     if _is_const_real(x) or _is_const_real(y):
         return x * y
+    ix, iy = int_valued(x), int_valued(y)
+    if ix is not None and iy is not None:
+        return z3.ToReal(ix * iy)          # a product of two integer-valued floats (exact below 2**53, S3)
     return T.rmul(x, y)
 
 
